@@ -156,14 +156,14 @@ def resultAt (cfg : Cfg) (i : Nat) : Option Outcome :=
 def elemName (name : String) (i : Nat) : String := name ++ "_" ++ toString i
 
 /-- `extract_field_value` (Array[X], Deque[X]; `initW = true`) and homogeneous `Tuple[X]` (`initW = false`):
-    one shared item field, one temp structure for the whole value -/
+    one shared item field, one temp structure (created after the optional first write) for the whole value -/
 def progHomogFrom (cell : Nat) (name : String) : Nat → List (Int × Bool) → List Step
   | _, [] => []
   | i, (v, ok) :: rest =>
     .writeShared cell (elemName name i) :: .storeTemp cell v ok :: .loadTemp cell :: progHomogFrom cell name (i + 1) rest
 
 def progHomog (cell : Nat) (name : String) (initW : Bool) (elems : List (Int × Bool)) : List Step :=
-  (if initW then [.writeShared cell name] else []) ++ progHomogFrom cell name 0 elems
+  (if initW then [.writeShared cell name] else []) ++ .newTemp :: progHomogFrom cell name 0 elems
 
 /-- `Set.__set__`: the name is written once, a fresh temp structure per element -/
 def progSetFrom (cell : Nat) : List (Int × Bool) → List Step
@@ -193,7 +193,7 @@ def progPosFrom (base : Nat) (name : String) (n : Nat) : Nat → List (Int × Bo
     else .emit v :: progPosFrom base name n (i + 1) rest
 
 def progPos (base : Nat) (name : String) (n : Nat) (elems : List (Int × Bool)) : List Step :=
-  progPosFrom base name n 0 elems
+  .newTemp :: progPosFrom base name n 0 elems
 
 end Typedpy.Sched
 
@@ -212,5 +212,12 @@ def Call.prog : Call → List Step
   | .set c n es => progSet c n es
   | .map kc vc n es => progMap kc vc n es
   | .pos b n k es => progPos b n k es
+
+/-- decidable conflict freedom: no program writes a cell that another program reads -/
+def disjointB (ws rs : List Nat) : Bool := ws.all fun c => !rs.contains c
+
+def conflictFreeB (progs : List (List Step)) : Bool :=
+  (List.range progs.length).all fun i => (List.range progs.length).all fun j =>
+    i == j || disjointB (writeCells (progs.getD j [])) (readCells (progs.getD i []))
 
 end Typedpy.Sched
